@@ -258,6 +258,81 @@ async fn id_reissued_case(seed: u64) -> Out {
 	out
 }
 
+// A subscription declared with the rpc macro: namespace + a notification name that differs from the subscribe name.
+mod macro_api {
+	use jsonrpsee::core::SubscriptionResult;
+	use jsonrpsee::proc_macros::rpc;
+	#[rpc(server, namespace = "chain")]
+	pub trait Heads {
+		#[subscription(name = "subscribeHeads" => "newHeads", unsubscribe = "unsubscribeHeads", item = u64)]
+		async fn heads(&self, n: u64) -> SubscriptionResult;
+		#[subscription(name = "subscribePlain", unsubscribe = "unsubscribePlain", item = u64)]
+		async fn plain(&self, n: u64) -> SubscriptionResult;
+	}
+}
+struct HeadsImpl;
+#[async_trait::async_trait]
+impl macro_api::HeadsServer for HeadsImpl {
+	async fn heads(&self, pending: jsonrpsee::PendingSubscriptionSink, n: u64) -> jsonrpsee::core::SubscriptionResult {
+		let sink = pending.accept().await?;
+		for k in 0..n {
+			sink.send(serde_json::value::to_raw_value(&k).unwrap()).await?;
+		}
+		Err("no more heads".into())
+	}
+	async fn plain(&self, pending: jsonrpsee::PendingSubscriptionSink, n: u64) -> jsonrpsee::core::SubscriptionResult {
+		let sink = pending.accept().await?;
+		for k in 0..n {
+			sink.send(serde_json::value::to_raw_value(&k).unwrap()).await?;
+		}
+		Err("no more".into())
+	}
+}
+
+/// Directed family: every notification of a macro-declared subscription - its items and its closing notification - carries
+/// the subscription's id and the notification method name the declaration gives it (`<namespace>_<override>`, or the
+/// subscribe name when there is no override).
+async fn macro_names_case(seed: u64) -> Out {
+	use macro_api::HeadsServer;
+	let mut out = Out::default();
+	let mut r = Rng::new(seed);
+	let srv = MemServer::new(ServerConfig::builder().set_message_buffer_capacity(*r.pick(&[1u32, 4, 1024])).build(), HeadsImpl.into_rpc());
+	let Ok(mut ws) = srv.ws().await else { return out };
+	macro_rules! bad {
+		($sig:expr, $($arg:tt)*) => { out.violations.push(($sig.to_string(), format!($($arg)*))) };
+	}
+	for (call, (subscribe, want_method)) in [("chain_subscribeHeads", "chain_newHeads"), ("chain_subscribePlain", "chain_subscribePlain")].into_iter().enumerate().map(|(i, x)| (i as u64 + 1, x)) {
+		let n = 1 + r.below(5);
+		let _ = ws.send_text(&json!({"jsonrpc": "2.0", "id": call, "method": subscribe, "params": [n]}).to_string()).await;
+		let frames = ws.drain_until_idle(Duration::from_secs(5)).await;
+		let mut sub_id = Value::Null;
+		let mut seen = 0u64;
+		for f in frames.iter().filter_map(|f| f.json()) {
+			if f["id"] == json!(call) {
+				sub_id = f["result"].clone();
+				continue;
+			}
+			out.notifications += 1;
+			if f["method"] != json!(want_method) {
+				bad!("wrong-notification-method/macro-declared", "{subscribe}: the frame {f} carries another method name than {want_method}");
+			}
+			if f["params"]["subscription"] != sub_id {
+				bad!("wrong-subscription-id/notification", "{subscribe}: the frame {f} carries another id than {sub_id}");
+			}
+			if f["params"].get("result").is_some() {
+				if f["params"]["result"] != json!(seen) {
+					bad!("notifications-out-of-order/any", "{subscribe}: item {} where item {seen} was due", f["params"]["result"]);
+				}
+				seen += 1;
+			}
+		}
+		if seen != n {
+			bad!("successful-send-lost/connection-open", "{subscribe}: {n} items were sent, {seen} arrived");
+		}
+	}
+	out
+}
+
 fn gen_spec(seed: u64) -> Spec {
 	let mut r = Rng::new(seed);
 	let conns = 1 + r.usize(if cfg!(miri) { 1 } else { 3 });
@@ -896,6 +971,24 @@ fn main() {
 	for (e, v) in results {
 		ev.merge(e);
 		violations.extend(v);
+	}
+	if !replay || replay_scenario.as_deref() == Some("macro-declared names") {
+		let seeds: Vec<u64> = match (replay, replay_seed) {
+			(true, Some(s)) => vec![s],
+			_ => (0..ctx.tier.pick(100u64, 5_000)).map(|i| Rng::fork(ctx.seed, 67_000_000 + i).next_u64()).collect(),
+		};
+		let res = run_parallel(seeds, |_, s| (s, block_on_virtual(macro_names_case(s))));
+		for (s, o) in res {
+			ev.eval();
+			ev.count("cases_macro_declared_subscription_names", 1);
+			ev.count("macro_declared_notifications_observed", o.notifications as u64);
+			if o.notifications > 0 && o.violations.is_empty() {
+				ev.nontrivial(&("macro-names", s));
+			}
+			for (sig, d) in o.violations {
+				violations.push(Violation::new(sig, d, json!({"scenario": "macro-declared names", "seed": s})));
+			}
+		}
 	}
 	if !replay || replay_scenario.as_deref() == Some("id issued again") {
 		let seeds: Vec<u64> = match (replay, replay_seed) {
